@@ -574,9 +574,67 @@ def j4(rep, src, impls):
             )
         elif dense is True and not refuses:
             rep.violation("J4", key, "%s::super_image does not answer Err when the set is not made of single values" % ty, g.where())
+        # what is answered when the image is NOT computed from the values: a refusal, or a type that contains every possible image - the full type of the target variant
+        def _leaves(v):
+            v = block_value(v) if v is not None else None
+            if v is None:
+                return [None]
+            if v["k"] == "if":
+                return _leaves(v["then"]) + (_leaves(v["else"]) if v.get("else") is not None else [None])
+            if v["k"] == "match":
+                return [l for a in v["arms"] for l in _leaves(a["body"])]
+            return [v]
+
+        fkey = ty + "::super_image@fallback" + ("@dispatched" if pair in dispatched else "")
+        for lf in _leaves(gbody):
+            if lf is None or is_err(lf) or any(x is s_[0] for s_ in sites for x in walk(lf)):
+                continue
+            t_ = show(lf, 0).replace(" ", "")
+            full = t_ in ("Ok(%s::full())" % pair[1], "Ok(%s::default())" % pair[1], "Ok(data_type::%s::full())" % pair[1], "Ok(data_type::%s::default())" % pair[1])
+            rep.instance("J4", fkey, {"impl": ty, "answer_without_enumeration": show(lf, 60), "is_full_target_type": full}, nontrivial=False)
+            if not full:
+                rep.violation(
+                    "J4",
+                    fkey,
+                    "%s::super_image answers `%s` for a set it does not enumerate: only the full %s type (or a refusal) contains every possible image - `self.co_domain()` is whatever type the caller asked to convert into"
+                    % (ty, show(lf, 50), pair[1]),
+                    g.where(),
+                )
     for pair in PAIRS:
         if pair not in seen:
             rep.error("J4: impl Injection for Base<%s, %s> not found (reviewed table is stale)" % pair)
+
+
+def j7(rep, src):
+    """Composite liftings and dispatchers build their inner injection FROM the domain side INTO the co-domain side."""
+    rep.rule(
+        "J7",
+        "every inner injection `From(A).into(B)` built inside `impl Injection for Base<..>::{super_image, value}` goes from the domain side to the co-domain side: A does not mention the co-domain, "
+        "B does not mention the domain (self.domain / self.domain() / a `domain` local) - in `value` exactly as in `super_image`",
+        floor=100,
+        necessary="an element converted with an injection domain -> domain (a copy-paste slip in `value` only) comes back unconverted: option(int) -> option(float) maps some(3) to some(3), "
+        "a value that is neither in the converted type nor in the target, while super_image still announces the converted type",
+    )
+    import re as _re
+
+    for f in src.find_fns(file=IJ, trait="Injection"):
+        if f.name not in ("super_image", "value") or not f.body or not (f.self_ty or "").startswith("Base<"):
+            continue
+        k = 0
+        for m in find(f.body, "mcall"):
+            if m["m"] != "into" or m["recv"]["k"] != "call" or path_of(m["recv"]["f"]) != "From" or not m["args"] or not m["recv"]["args"]:
+                continue
+            a, b = show(m["recv"]["args"][0], 0).replace(" ", ""), show(m["args"][0], 0).replace(" ", "")
+            k += 1
+            key = "%s::%s#%d" % (f.self_ty, f.name, k)
+            bad = []
+            if "co_domain" in a:
+                bad.append("the source `%s` is taken from the co-domain" % a[:60])
+            if _re.search(r"(?<![A-Za-z_])domain", b.replace("co_domain", "")):
+                bad.append("the target `%s` is taken from the domain" % b[:60])
+            rep.instance("J7", key, {"impl": f.self_ty, "fn": f.name, "from": a[:60], "into": b[:60]}, nontrivial=False)
+            if bad:
+                rep.violation("J7", "%s::%s@inner-injection" % (f.self_ty, f.name), "%s::%s builds an inner injection the wrong way round: %s" % (f.self_ty, f.name, "; ".join(bad)), "src/%s:%d" % (IJ, m["l"]))
 
 
 # ------------------------------------------------------------------------------------------------ J3 (MIR)
@@ -888,6 +946,7 @@ def run(rep):
     j3(rep, mir)
     j5(rep, src, mir)
     j6(rep, src, impls)
+    j7(rep, src)
     rep.extra["primitive_pairs"] = {"%s->%s" % k: v[0] for k, v in PAIRS.items()}
     from .util_enum import n1
 
